@@ -385,7 +385,7 @@ fn f7_scenario() -> Scenario {
     let a = Pat::App(0, vec![]);
     let b = Pat::App(1, vec![]);
     Scenario {
-        p: Program { decls, cmds: vec![] },
+        p: Program { decls, cmds: vec![], expect: vec![] },
         setup: vec![Action::Expr(a.clone()), Action::Expr(Pat::App(2, vec![b.clone()]))],
         rules: vec![Rule {
             body: vec![Fact::Eq(0, Pat::App(2, vec![Pat::Var(1)]))],
